@@ -703,6 +703,14 @@ def _crash_plain(r):
 
 
 def analyse_c13(args):
+    try:
+        return _analyse_c13(args)
+    except Exception as ex:     # never let a non-picklable exception travel through the pool
+        return {"oom": "TRANSLATOR:harness exception " + traceback.format_exc()[-1500:], "coq": None, "items": [],
+                "full": ("ok", None), "typing": ("accept", [], None), "harness_error": True}
+
+
+def _analyse_c13(args):
     text, name, extra, repo = args
     out = {"oom": None, "coq": None, "items": []}
     st, r = compile_emb(text, name=name, extra=extra, repo=repo)
